@@ -9,11 +9,23 @@ TOK = {"tok-alice": {"name": "alice", "groups": ["g1", "system:authenticated"], 
 EP = {"e0": 0, "e1": 1, "e2": 2}
 
 
-def cluster(name, servers, subset):
+def cluster(name, servers, subset, dup=None):
     """servers: {stub: 'on'|'off'}; subset: explicit subset of the 'pods' policy (stubs present in the list)"""
     sub = [s for s in subset if s in servers]
     pols = [{"resources": ["pods"], "nonres": [], "subset": sub, "flow": ""}, {"resources": ["deployments"], "nonres": ["*"], "subset": [], "flow": ""}]
-    return {"name": name, "aliases": [], "servers": [{"stub": s, "disabled": m == "off"} for s, m in sorted(servers.items())], "policies": pols, "flows": [], "gates": ""}
+    srv = [{"stub": s, "disabled": m == "off"} for s, m in sorted(servers.items())]
+    if dup is not None:
+        # the same endpoint listed more than once (a valid object): a disabled endpoint once with and once without the flag, in either order;
+        # an enabled one simply twice.  It is disabled when ANY entry says so.
+        extra = []
+        for e in srv:
+            r = dup.random()
+            if r < 0.3:
+                extra.append(({"stub": e["stub"], "disabled": False}, dup.random() < 0.5))
+        for e, before in extra:
+            i = [k for k, x in enumerate(srv) if x["stub"] == e["stub"]][0]
+            srv.insert(i if before else i + 1, e)
+    return {"name": name, "aliases": [], "servers": srv, "policies": pols, "flows": [], "gates": ""}
 
 
 class Builder:
@@ -40,7 +52,7 @@ class Builder:
             self.exists, self.servers = False, {}
             self.matched = []      # a request caught between match and pick by the DELETION of its cluster is a request in flight (C15: cancelled), not judged as a pick
             return
-        self.steps += [{"k": "apply", "cluster": cluster("c1", new, [0, 1])}, {"k": "quiesce"}]
+        self.steps += [{"k": "apply", "cluster": cluster("c1", new, [0, 1], dup=self.rng if self.sid % 2 == 0 else None)}, {"k": "quiesce"}]
         self.exists, self.servers = True, new
         self.steps.append({"k": "waitready", "name": "c1", "ready": self.expect_ready()})
 
@@ -188,7 +200,10 @@ def picks_scenarios(start, rng, n):
         extra = {}
         if i % 4 == 3:
             extra = {3: "off"}      # a disabled endpoint next to the ready ones
-        st = [{"k": "apply", "cluster": cluster("c1", {**servers, **extra}, list(range(k)))}, {"k": "waitready", "name": "c1", "ready": list(range(k))}]
+        st = [{"k": "apply", "cluster": cluster("c1", {**servers, **extra}, list(range(k)), dup=rng if i % 2 else None)}, {"k": "waitready", "name": "c1", "ready": list(range(k))}]
+        for N in (k, 3 * k + 1, 10 * k):        # a no-op re-sync of the unchanged object after every pick
+            st.append({"k": "popsync", "name": "c1", "resource": "pods", "n": N})
+            st.append({"k": "popsync", "name": "c1", "resource": "deployments", "n": N})
         for N in (k - 1, k, 3 * k + 1, 1000):
             st.append({"k": "pops", "name": "c1", "resource": "pods", "n": N, "g": 1})                # explicit subset: strict round-robin
             st.append({"k": "pops", "name": "c1", "resource": "deployments", "n": N, "g": 1})         # all endpoints
@@ -249,7 +264,9 @@ def project(sc, events):
             classify()
         if k == "applied":
             c = e["cluster"]
-            cfg[c["name"]] = {s["stub"]: ("off" if s["disabled"] else "on") for s in c["servers"]}
+            cfg[c["name"]] = {}
+            for s in c["servers"]:       # listed more than once: disabled when any entry says so
+                cfg[c["name"]][s["stub"]] = "off" if (s["disabled"] or cfg[c["name"]].get(s["stub"]) == "off") else "on"
             subset[c["name"]] = c["policies"][0]["subset"]
             if c["name"] == "c1":
                 out.append({"k": "applied", "servers": [cfg["c1"].get(s, "gone") for s in range(4)]})
